@@ -253,6 +253,8 @@ def verify_one(key):
             if verdict == 'refuted':
                 if model is not None:
                     orec['model'] = {n: model_value(model, c) for n, c in cx.inputs.items()}
+                if getattr(o, 'witness', None):
+                    orec.setdefault('model', {})['$witness'] = o.witness
                 orec['solver_output'] = reason or 'sat'
             if verdict == 'unknown': orec['solver_output'] = reason
             rec['obligations'].append(orec)
